@@ -48,6 +48,19 @@ def opBuildV (args res : List String) : Verdict :=
     { spec := cmp "outcome" spec impl, model := cmp "outcome" model impl }
   | _ => { spec := some "bad-args" }
 
+/-- `buildc <hex> <ecl|-> => ok <version> | err E` : automatic mode and version on real content -/
+def opBuildC (args res : List String) : Verdict :=
+  match args with
+  | [h, e] =>
+    let inp := parseHexBytes h
+    let l := match optNat e with | some k => ECL.ofIx k | none => ECL.Q
+    let m := Spec.classify inp
+    let impl := " ".intercalate res
+    let spec : String := match Spec.least m l inp.length with | none => "err E" | some a => s!"ok {a}"
+    let model := outcomeStr (Model.chooseVersion (Model.bestEncoding inp) l inp.length none)
+    { spec := cmp "outcome" spec impl, model := cmp "outcome" model impl }
+  | _ => { spec := some "bad-args" }
+
 def modeStr : Mode → String
   | .numeric => "0" | .alnum => "1" | .byte => "2"
 
@@ -73,6 +86,7 @@ def handle (prop : String) (line : String) : String :=
     let v : Verdict :=
       match op with
       | "buildv" => opBuildV args res
+      | "buildc" => opBuildC args res
       | "buildvh" => opBuildV (args.take 4) res   -- same configuration, reached on a reused builder
       | "buildh" => opBuild prop (args.take 5) res
       | "buildafter" => opBuild prop (args.take 5) res
@@ -95,6 +109,7 @@ def handle (prop : String) (line : String) : String :=
       | "svg" => opSvg prop args res
       | "wasm" => opWasm args res
       | "hist" => opHist args res
+      | "after" => opAfter args res
       | "file" => opFile args res
       | "pix" => opPix args res
       | "pixframe" => opPixFrame args res
